@@ -19,6 +19,7 @@ from . import c20
 from .c01 import _division_terms
 from ..walk import mult_factors
 
+F32_TINY = 1.1754943508222875e-38
 M = 'pb_bss.extraction.mask_module::'
 AXIS_PARAMS = {'source_axis', 'sensor_axis', 'axis', 'component_axis', 'frequency_axis'}
 MASKS = ['ideal_binary_mask', 'wiener_like_mask', 'ideal_ratio_mask', 'ideal_amplitude_mask', 'phase_sensitive_mask', 'ideal_complex_mask',
@@ -181,6 +182,18 @@ def check_forms(run, A):
         ctx = A.ev.entry(fn)
         d = A.ev.default_av(fn, 'eps', ctx) if 'eps' in fn.defaults else None
         run.check(d is not None and d.sign == 'POS', 'R-SIGN', f'{name}: default eps is positive', fn.loc(), '', 'the eps guard defaults to a non-positive value', construct=f'R-SIGN::{M + name}::eps-default')
+        # ... and stays positive when it is added to single-precision powers: the guard is a Python float that takes the dtype of the array it
+        # is added to, so a value below the smallest float32 (1.2e-38; e.g. finfo(float64).tiny) is 0 for complex64 input and 0 / 0 is back
+        if d is not None and d.sign == 'POS':
+            if d.is_const and isinstance(d.cval, (int, float)):
+                small = d.cval < F32_TINY
+            elif isinstance(d.meta, tuple) and d.meta and d.meta[0] in ('finfo.tiny', 'finfo.eps'):
+                small = d.meta[0] == 'finfo.tiny' and (len(d.meta) < 2 or d.meta[1] not in ('float32', 'single', 'float16', 'half', 'complex64'))
+            else:
+                raise AnalysisError(f'{name}: the default of eps is not resolvable to a constant')
+            run.check(not small, 'R-SIGN', f'{name}: default eps is a positive number in single precision too', fn.loc(), '',
+                      'the eps default is below the smallest float32: added to the float32 powers of a complex64 input it is 0 and silent points give 0 / 0',
+                      construct=f'R-SIGN::{M + name}::eps-default-float32')
 
 
 def check_flatten(run, A):
